@@ -123,6 +123,7 @@ def load_registry():
                 v["props"] = ["C20"]
                 v["tier"] = kv["nodebug"]
                 v["cfg"] = "nodebug"
+                v["all_obls"] = True   # every clause of the contract must also hold in this profile
                 v["covers"] = []
                 v["hist"] = False
                 v["big"] = False
@@ -393,7 +394,7 @@ def classify(h, res, prop):
         m = OBL_RE.match(c["desc"])
         if m:
             name, props = m.group(1), m.group(2).split(",")
-            if prop is not None and prop not in props:
+            if prop is not None and prop not in props and not h.get("all_obls"):
                 # contract clause of another property: still a defect signal but reported there
                 continue
             rec = {"name": name, "harness": h["name"], "status": c["status"], "kind": "contract", "where": c["loc"],
